@@ -85,6 +85,12 @@ type harnessRun struct {
 
 func (in *Interp) resetPath() {
 	in.undoTrail()
+	// hidden per-object state of objects created on the previous path is garbage
+	for k, h := range hiddenCells {
+		if h.epoch != 0 {
+			delete(hiddenCells, k)
+		}
+	}
 	in.epoch++
 	in.pc = in.pc[:0]
 	in.pcSet = nil
